@@ -242,37 +242,8 @@ def run(chk):
     chk.ob("C19.R5:typed-out-of-Value", "every typed conversion out of a Value is the bag's own TryInto; the sibling impls agree", typed_out_of_value)
 
     def macro_props_skip_none():
-        b = P.impl_method("emit_core::props::Props", "emit::macro_hooks::__PrivateMacroProps<'a, N>", "for_each")
-        # the decision on an entry's value being None must lead back into the loop, not out of it
-        found = False
-        for bb, t in b.switches():
-            so = b.switch_origin(bb)
-            if so[0] != "discr":
-                continue
-            names = mir.o_field_path(so[1])[1]
-            x = so[1]
-            while x[0] in ("field", "downcast", "index"):
-                x = x[1]
-            if "1" not in names:
-                continue
-            if not b.in_cycle(bb):
-                continue
-            found = True
-            none_targets = [tgt for v, tgt in t["targets"] if v == "0"] or [t["otherwise"]]
-            for nt in none_targets:
-                # from the None edge the loop header (the next() call) must be reachable, i.e. iteration continues
-                hdrs = [h for s_, h in b.back_edges() if bb in b.loop_body(h)]
-                if not hdrs or not any(h in b.reachable_from(nt) for h in hdrs):
-                    return False, ("when an entry's value is None (an #[emit::optional] capture of None) enumeration leaves the loop "
-                                   "instead of skipping the entry: every property after it disappears from for_each"), [], "%s:%s" % (b.file, t.get("line"))
-                # and no visitor call on the None edge before looping
-                for c in b.calls(normal_only=True):
-                    if c.callee.get("name") in ("call_mut", "call") and c.bb in b.reachable_from(nt) and not any(
-                            c.bb in b.reachable_from(h) for h in hdrs if h in b.reachable_from(nt)):
-                        return False, "a None entry is passed to the visitor", [], c.loc
-        if not found:
-            return False, "no per-entry test of the optional value found in the enumeration loop", [], b.span
-        return True, "", [b.span]
+        from . import c02
+        return c02.macro_skip_none(P)
     def every_attribute_evaluated():
         """The macros split a key-value's attributes into its one `#[cfg]` and the hook attributes (`#[emit::as_debug]`, `#[emit::key]`, `#[emit::fmt]` ..)
         that `eval_hooks` then applies.  Whatever reads `fv.attrs` there visits *all* of them: no iterator adaptor that can stop before the end
